@@ -30,6 +30,7 @@ func init() {
 			{ID: "R02.7", Title: "optimizer: subtree promotion only under the generated code's own condition (see C02)", Floor: 2, Run: ruleR027},
 			{ID: "R02.8", Title: "optimizer: first-match folding of switch nodes (see C02)", Floor: 0, Run: ruleR028},
 			{ID: "R10.4", Title: "the producer of a lazy list uses the stack of its consumer only: no value stack is captured from the call that built the list", Floor: 20, Run: ruleR104},
+			{ID: "R02.11", Title: "the optimizer applies a constant closure only for an argument count the generated call accepts (see C02)", Floor: 1, Run: ruleR0211},
 		},
 	})
 	register(&Property{
@@ -76,6 +77,7 @@ func init() {
 			{ID: "R03.9", Title: "a consumed postfix opener always builds its node: no path accepts the brackets without a node", Floor: 3, Run: ruleR039},
 			{ID: "R04.8", Title: "input is never silently truncated: the end-of-input mark cannot be forged by a character of the input (see C04)", Floor: 1, Run: ruleR048},
 			{ID: "R10.3", Title: "a field that one function increments and decrements (a depth counter) is back at its old value on every exit of that function (package parser2; see C10)", Floor: 0, Run: ruleR103(func(p *packages.Package) bool { return p.PkgPath == modPath })},
+			{ID: "R15.12", Title: "comment skipping is opt-in: the constructor of the parser leaves it switched off", Floor: 1, Run: ruleR1512},
 		},
 	})
 	register(&Property{
@@ -169,6 +171,7 @@ func init() {
 			{ID: "R09.2", Title: "maps are never updated in place (see C09)", Floor: 40, Run: ruleR092},
 			{ID: "R07.9", Title: "materialising a lazy list: success implies the items are present, and nothing is cached while an error of the producer is pending", Floor: 2, Run: ruleR079},
 			{ID: "R13.3", Title: "flattening a chain of map wrappers copies the abstract view of the whole chain, not the storage below it (see C13)", Floor: 3, Run: ruleR133},
+			{ID: "R07.10", Title: "a static function registered under the name of a function of package math is bound to that function (writer's and reader's tables agree)", Floor: 8, Run: ruleR0710},
 		},
 	})
 	register(&Property{
@@ -219,6 +222,7 @@ func init() {
 			{ID: "R01.2", Title: "closure context allocated per closure creation, slots in compile order (see C01)", Floor: 16, Run: ruleR012},
 			{ID: "R07.9", Title: "materialising a lazy list: success implies the items are present, and nothing is cached while an error of the producer is pending", Floor: 2, Run: ruleR079},
 			{ID: "R10.4", Title: "the producer of a lazy list uses the stack of its consumer only: no value stack is captured from the call that built the list", Floor: 20, Run: ruleR104},
+			{ID: "R11.2", Title: "generators share no mutable table: no package level map is handed to a registration method of a generator", Floor: 4, Run: ruleR112},
 		},
 	})
 	register(&Property{
@@ -243,6 +247,7 @@ func init() {
 			{ID: "R06.3", Title: "iterator pipelines with callbacks are constructed per iteration", Floor: 15, Run: ruleR063},
 			{ID: "R07.9", Title: "materialising a lazy list: success implies the items are present, and nothing is cached while an error of the producer is pending", Floor: 2, Run: ruleR079},
 			{ID: "R10.4", Title: "the producer of a lazy list uses the stack of its consumer only: no value stack is captured from the call that built the list", Floor: 20, Run: ruleR104},
+			{ID: "R11.2", Title: "generators share no mutable table: no package level map is handed to a registration method of a generator", Floor: 4, Run: ruleR112},
 		},
 	})
 	register(&Property{
@@ -272,6 +277,7 @@ func init() {
 			{ID: "R18.7", Title: "attribute form or element form of a map is decided per map (a field of the exporter), never per entry: the XML writer drops attributes that follow a child", Floor: 1, Run: ruleR187},
 			{ID: "R09.2", Title: "maps are never updated in place (see C09)", Floor: 40, Run: ruleR092},
 			{ID: "R09.3", Title: "language values other than List never append to a slice field of their receiver or of a shallow copy of it without capping or cloning it", Floor: 1, Run: ruleR093},
+			{ID: "R13.5", Title: "kind tables have no hole: a switch over reflect.Kind that handles a kind handles every narrower kind of the same family", Floor: 1, Run: ruleR135},
 		},
 	})
 	register(&Property{
@@ -290,6 +296,7 @@ func init() {
 			{ID: "R13.1", Title: "key-domain agreement of the map storages: map equality compares Size, Iter and Get (see C13)", Floor: 9, Run: ruleR131},
 			{ID: "R05.2", Title: "no use of a value before the error returned with it was compared with nil (see C05)", Floor: 20, Run: ruleR052},
 			{ID: "R02.8", Title: "first-match folding of switch nodes agrees with the run-time order of the equality tests (see C02)", Floor: 0, Run: ruleR028},
+			{ID: "R02.4", Title: "the relations = and < and the operators derived from them are not declared commutative (regroupable): a comparison never yields a boolean where the written expression compares incomparable operands (see C02)", Floor: 15, Run: ruleR024(func(p *packages.Package) bool { return strings.HasSuffix(p.PkgPath, "/value") })},
 		},
 	})
 	register(&Property{
@@ -309,6 +316,7 @@ func init() {
 			{ID: "R15.10", Title: "the tokenizer scans the source exactly as it was handed to Parse (nothing is trimmed or rewritten before the lines are counted)", Floor: 2, Run: ruleR1510},
 			{ID: "R15.11", Title: "the width of a decoded rune is not dropped: the variable it is stored into is read before it is overwritten", Floor: 5, Run: ruleR1511},
 			{ID: "R03.6", Title: "implicit multiplication bookkeeping only in comfort mode (see C03)", Floor: 3, Run: ruleR036},
+			{ID: "R15.12", Title: "comment skipping is opt-in: the constructor of the parser leaves it switched off", Floor: 1, Run: ruleR1512},
 		},
 	})
 	register(&Property{
